@@ -16,6 +16,9 @@ type Action struct {
 	K    string `json:"k"` // put | find
 	From string `json:"from"`
 	To   string `json:"to"`
+	// Foreign: the source version of this find is spelled with another group than the one every rule is declared
+	// with: it is a different version, no chain starts there
+	Foreign bool `json:"foreign,omitempty"`
 }
 
 type Case struct {
@@ -30,7 +33,7 @@ var shortPool = []string{"v1", "v1alpha1", "v1beta1", "v1beta2", "v2", "v10", "v
 const group = "stable.example.com"
 
 func ident(mode, v string) string {
-	if mode == "one-group" {
+	if mode == "one-group" || mode == "one-group-full" {
 		if i := strings.IndexRune(v, '/'); i >= 0 {
 			return v[i+1:]
 		}
@@ -40,8 +43,12 @@ func ident(mode, v string) string {
 
 func gen(t *rapid.T) Case {
 	c := Case{Mode: "one-group"}
+	if rapid.IntRange(0, 3).Draw(t, "fullMode") == 0 {
+		// every version is written with its group; some requests come from a version of another group
+		c.Mode = "one-group-full"
+	}
 	var nodes []string
-	if c.Mode == "one-group" {
+	if c.Mode == "one-group" || c.Mode == "one-group-full" {
 		n := rapid.IntRange(2, 7).Draw(t, "n")
 		nodes = rapid.Permutation(shortPool).Draw(t, "perm")[:n]
 	} else {
@@ -50,7 +57,7 @@ func gen(t *rapid.T) Case {
 		nodes = rapid.Permutation(all).Draw(t, "perm")[:n]
 	}
 	spell := func(v, label string) string {
-		if c.Mode == "one-group" && rapid.Bool().Draw(t, label) {
+		if c.Mode == "one-group-full" || (c.Mode == "one-group" && rapid.Bool().Draw(t, label)) {
 			return group + "/" + v
 		}
 		return v
@@ -81,7 +88,12 @@ func gen(t *rapid.T) Case {
 	for i := 0; i <= len(order); i++ {
 		for _, x := range qs {
 			if x.pos == i && x.a != x.b {
-				c.Actions = append(c.Actions, Action{K: "find", From: spell(nodes[x.a], "sf"), To: spell(nodes[x.b], "st")})
+				a := Action{K: "find", From: spell(nodes[x.a], "sf"), To: spell(nodes[x.b], "st")}
+				if c.Mode == "one-group-full" && rapid.IntRange(0, 2).Draw(t, "foreign") == 0 {
+					a.Foreign = true
+					a.From = "other.example.com/" + nodes[x.a]
+				}
+				c.Actions = append(c.Actions, a)
 			}
 		}
 		if i < len(order) {
@@ -133,6 +145,16 @@ func runCase(c Case) (ev.Info, error) {
 				continue
 			}
 			got := cs.FindConversionChain(crd, conversion.Rule{FromVersion: a.From, ToVersion: a.To})
+			if a.Foreign {
+				info.Labels = append(info.Labels, "foreign-group-request")
+				if bfs(c.Mode, rules, a.From, a.To) >= 2 {
+					info.NonTrivial = true
+				}
+				if len(got) > 0 {
+					return info, fmt.Errorf("step %d: find %s->%s returned %v: every rule is declared for group %s, no declared rule starts at a version of another group", step, a.From, a.To, got, group)
+				}
+				continue
+			}
 			want := bfs(c.Mode, rules, a.From, a.To)
 			if want >= 2 {
 				info.NonTrivial = true
@@ -168,7 +190,7 @@ func runCase(c Case) (ev.Info, error) {
 	return info, nil
 }
 
-const rule = "stateful histories of Put(rule)/Find(from,to) on conversion.ChainStorage over 2-7 versions from a pool with substring relations (v1, v1alpha1, v1beta1, v1beta2, v2, v10, v3), one group (a CRD has exactly one) with mixed short/full spellings; backbone chains plus random edges (forks, diamonds, cycles, self loops); oracle: reference BFS for existence, validity predicate for the returned chain (declared rules, starts at from, ends at to, consecutive). Non-trivial: a query whose shortest chain has >= 2 steps. Distinct = distinct action sequences."
+const rule = "stateful histories of Put(rule)/Find(from,to) on conversion.ChainStorage over 2-7 versions from a pool with substring relations (v1, v1alpha1, v1beta1, v1beta2, v2, v10, v3), one group (a CRD has exactly one) with mixed short/full spellings, in a quarter of the cases every rule written with its group and some requests coming from the same version name of another group (no chain may be found); backbone chains plus random edges (forks, diamonds, cycles, self loops); oracle: reference BFS for existence, validity predicate for the returned chain (declared rules, starts at from, ends at to, consecutive). Non-trivial: a query whose shortest chain has >= 2 steps. Distinct = distinct action sequences."
 
 func TestChain(t *testing.T) {
 	ev.Main(t, ev.Spec[Case]{Property: "C15", Part: "chain", Rule: rule, Gen: gen, Run: runCase, RegressRepeat: 20})
